@@ -144,6 +144,15 @@ theorem dbapiCall_nofault (c : Conn) (p : FPoint) (f : DB → DB) (h : c.db.faul
     c.dbapiCall p f = ({ c with db := f c.db }, .ok) := by
   simp [Conn.dbapiCall, takeFault_nil _ _ h]
 
+theorem resetInterrupted_nofault (db : DB) (b : Bool) (h : db.faults = []) :
+    db.resetInterrupted b = false := by
+  unfold DB.resetInterrupted
+  cases db.reset <;> simp [takeFault_nil _ _ h]
+
+theorem releaseOrInterrupt_nofault (c : Conn) (b : Bool) (h : c.db.faults = []) :
+    c.releaseOrInterrupt b = (c.release b, .ok) := by
+  simp [Conn.releaseOrInterrupt, resetInterrupted_nofault _ _ h]
+
 theorem dbapiError_err_plain (c : Conn) (hl : c.db.listener = .none) (hin : c.inTransaction = true) :
     c.dbapiError .err = (c, .operational) := by
   simp [Conn.dbapiError, hl, Conn.plainError, hin]
